@@ -242,7 +242,14 @@ func (f *FibStrategyHashTable) FindNextHopsEnc(name enc.Name) []*FibNextHopEntry
 	for pfx := len(entry.name); pfx >= 0; pfx-- {
 		val, ok := f.realTable[prefixHash[pfx]]
 		if ok && len(val.nexthops) > 0 {
-			return val.nexthops
+			// Return copies of the entries: the caller reads them after the lock
+			// is released, while updates modify the stored slice and entries in place.
+			nexthops := make([]*FibNextHopEntry, len(val.nexthops))
+			for i, nh := range val.nexthops {
+				nhCopy := *nh
+				nexthops[i] = &nhCopy
+			}
+			return nexthops
 		}
 	}
 
